@@ -190,6 +190,20 @@ func init() {
 		fresh := tak.New(cfg)
 		return fmtOutcome(q) + " " + accStr(q) + " new=" + strconv.Itoa(fresh.Size()) + "," + strconv.Itoa(fresh.WhiteStones())
 	}
+	// overclone: the verdict of a CLONE of a position that lived in a search-stack frame, after that frame was reused
+	opTable["overclone"] = func(s *Session, a []string) string {
+		p := decPos(a[0])
+		f1 := tak.Alloc(p.Size())
+		A, err := p.MovePreallocated(decMove(a[1]), f1)
+		if err != nil {
+			return "err"
+		}
+		K := A.Clone()
+		if _, err := p.MovePreallocated(decMove(a[2]), f1); err != nil {
+			p.MovePreallocated(tak.Move{Type: tak.Pass}, f1)
+		}
+		return fmtOutcome(K) + " " + accStr(K)
+	}
 	// evalmm: the exported method MinimaxAI.Evaluate on ONE engine per board size that is kept for the whole run (default
 	// configuration, transposition table on), so that whatever the engine remembers between calls meets positions of
 	// other games, other piece counts and other tie-break settings
